@@ -154,7 +154,7 @@ pub fn check_class_method(ctx: &mut Ctx, c: u8, m: u16) {
             w,
             class_num(t.class()),
             t.method(),
-            t.has_class(class_from(c)),
+            t.has_class(class_from(c)) && t.is_response() == (c >= 2),
             t.has_method(m),
             parsed,
             format!("{t}").len(),
